@@ -36,7 +36,7 @@ def run(ctx, b, broken):
             linecols = {(p[1], p[2]) for p in pos}
             for t, p_ in zip(toks, pos):
                 if t[2] == "pragma":      # '#pragma body' is two lexer tokens: 'pragma' (column 2) and the body (column 9)
-                    linecols |= {(p_[1], p_[2] + 1), (p_[1], p_[2] + 8)}
+                    linecols |= {(p_[1], p_[3]), (p_[1], p_[4])} if len(p_) > 3 else {(p_[1], p_[2] + 1), (p_[1], p_[2] + 8)}
             for cname, co in acc:
                 if co is None:
                     if cname in MUST_HAVE_COORD:
